@@ -96,6 +96,15 @@ func propC06(c c06Case) hh.Verdict {
 	if res.Panic != nil {
 		return hh.Fail("Parse panicked [%s]: %v\n%s", c.FE, res.Panic, firstLines(res.Stack, 14))
 	}
+	// ... and neither does the next, unrelated execution that inherits the helper objects this one handed back
+	var later any
+	func() {
+		defer func() { later = recover() }()
+		processPrelude()
+	}()
+	if later != nil {
+		return hh.Fail("after this Parse [%s] returned normally: %v", c.FE, later)
+	}
 	v := hh.Verdict{Classes: []string{"fe:" + c.FE, "root:" + c.Root.Kind}, Nontrivial: wild > 0}
 	if res.NoIssues() {
 		v.Classes = append(v.Classes, "result:nil")
@@ -168,6 +177,10 @@ func genC06(rt *rapid.T, cfg model.GenCfg) c06Case {
 	root.Number()
 	typed := g.GenTyped(root)
 	valid, _ := g.Render(root, typed, "root")
+	if fe == "direct" && rapid.IntRange(0, 9).Draw(rt, "chain") == 0 {
+		// a very deep document: a chain of 8-20 containers (the executions of successive cases share the object pools)
+		root, valid = model.GenChain(rt, rapid.IntRange(8, 20).Draw(rt, "depth"))
+	}
 	c := c06Case{Root: root, FE: fe}
 	switch fe {
 	case "direct":
